@@ -219,7 +219,8 @@ Definition skel_pi (lp : bool) (pi : pinfo) : pinfo :=
 Fixpoint skel (t : ty) : ty :=
   match t with
   | TScalar s => TScalar s
-  | TTuple named _ _ els => TTuple named false [] (map (fun p => (fst p, skel (snd p))) els)
+  | TTuple named _ _ els =>
+      TTuple named false [] (map (fun p => (if named then fst p else [], skel (snd p))) els)
   | TArray _ _ el => TArray false [] (skel el)
   | TRange _ _ el => TRange false [] (skel el)
   | TMultiRange _ _ el => TMultiRange false [] (skel el)
@@ -472,6 +473,95 @@ Lemma skel_list : forall {A} (g : A -> A) (l1 l2 : list (A * ty)),
   map (fun p => (g (fst p), skel (snd p))) l1 = map (fun p => (g (fst p), skel (snd p))) l2.
 Proof. induction 1; simpl; auto. destruct H0 as [-> ->]. f_equal; auto. Qed.
 
+Lemma tuple_skel_list : forall named (l1 l2 : list (str * ty)),
+  (named = true -> map fst l1 = map fst l2) ->
+  Forall2 (fun a b => skel (snd a) = skel (snd b)) l1 l2 ->
+  map (fun p => (if named then fst p else [], skel (snd p))) l1
+  = map (fun p => (if named then fst p else ([] : str), skel (snd p))) l2.
+Proof.
+  intros named l1 l2 HN F. induction F as [|x y l1 l2 Hxy F IH]; simpl; auto.
+  f_equal.
+  - f_equal; [|exact Hxy]. destruct named; auto. specialize (HN eq_refl). simpl in HN.
+    inversion HN; auto.
+  - apply IH. intro Hn. specialize (HN Hn). simpl in HN. inversion HN; auto.
+Qed.
+
+Lemma Forall2_IH : forall {A} (l1 l2 : list (A * ty)),
+  Forall (fun p => all_ok (snd p) -> forall t2, all_ok t2 -> tid' (snd p) = tid' t2 -> skel (snd p) = skel t2) l1 ->
+  Forall (fun p => all_ok (snd p)) l1 -> Forall (fun p => all_ok (snd p)) l2 ->
+  Forall2 (fun a b => tid' (snd a) = tid' (snd b)) l1 l2 ->
+  Forall2 (fun a b => skel (snd a) = skel (snd b)) l1 l2.
+Proof.
+  intros A l1 l2 IH X1 X2 F. induction F; constructor.
+  - inversion IH; inversion X1; inversion X2; subst. auto.
+  - inversion IH; inversion X1; inversion X2; subst. auto.
+Qed.
+
+Lemma Forall2_and : forall {A B} (P Q : A -> B -> Prop) l1 l2,
+  Forall2 P l1 l2 -> Forall2 Q l1 l2 -> Forall2 (fun a b => P a b /\ Q a b) l1 l2.
+Proof.
+  intros A B P Q l1 l2 F. induction F; intros G; inversion G; subst; constructor; auto.
+Qed.
+
+Lemma Forall2_len : forall {A B} (R : A -> B -> Prop) l1 l2, Forall2 R l1 l2 -> length l1 = length l2.
+Proof. induction 1; simpl; auto. Qed.
+
+(* pointers of two shapes whose per-element id-relevant data agree have equal skeletons *)
+Lemma ptr_list_skel : forall (lp : bool) (l1 l2 : list (pinfo * ty)),
+  Forall (fun p => all_ok (snd p) -> forall t2, all_ok t2 -> tid' (snd p) = tid' t2 -> skel (snd p) = skel t2) l1 ->
+  Forall (fun p => all_ok (snd p)) l1 -> Forall (fun p => all_ok (snd p)) l2 ->
+  Forall elem_set_ok l1 -> Forall elem_set_ok l2 ->
+  Forall2 (fun p1 p2 =>
+             (if pmulti (fst p1) then set_id H (tid' (snd p1)) else tid' (snd p1))
+             = (if pmulti (fst p2) then set_id H (tid' (snd p2)) else tid' (snd p2))) l1 l2 ->
+  Forall2 (fun p1 p2 => pname (fst p1) = pname (fst p2)) l1 l2 ->
+  Forall2 (fun p1 p2 => card_of (preq (fst p1)) (pmulti (fst p1))
+                        = card_of (preq (fst p2)) (pmulti (fst p2))) l1 l2 ->
+  (lp = false -> Forall2 (fun p1 p2 => plink (fst p1) = plink (fst p2)) l1 l2) ->
+  map (fun p => (skel_pi lp (fst p), skel (snd p))) l1
+  = map (fun p => (skel_pi lp (fst p), skel (snd p))) l2.
+Proof.
+  intros lp l1 l2 IH X1 X2 S1 S2 FS. revert IH X1 X2 S1 S2.
+  induction FS as [|p1 p2 l1 l2 Hs FS IHF]; intros IH X1 X2 S1 S2 FN FC FL; simpl; auto.
+  inversion IH as [|? ? IHp IHr]; inversion X1 as [|? ? Xp1 Xr1]; inversion X2 as [|? ? Xp2 Xr2];
+    inversion S1 as [|? ? Sp1 Sr1]; inversion S2 as [|? ? Sp2 Sr2];
+    inversion FN as [|? ? ? ? Np Nr]; inversion FC as [|? ? ? ? Cp Cr]; subst.
+  apply card_of_inj in Cp. destruct Cp as [Hr Hm].
+  f_equal.
+  - f_equal.
+    + unfold skel_pi. rewrite Np, Hr, Hm. destruct lp; auto.
+      specialize (FL eq_refl). inversion FL; subst. congruence.
+    + apply IHp; auto. apply elem_sub_eq; auto.
+  - apply IHF; auto. intro Hl. specialize (FL Hl). inversion FL; auto.
+Qed.
+
+Definition sub_of (p : pinfo * ty) : uuid :=
+  if pmulti (fst p) then set_id H (tid' (snd p)) else tid' (snd p).
+
+Lemma plain_maps : forall l,
+  map e_sub (map plain_elem l) = map sub_of l /\
+  map e_name (map plain_elem l) = map (fun p => pname (fst p)) l /\
+  map e_card (map plain_elem l) = map (fun p => card_of (preq (fst p)) (pmulti (fst p))) l /\
+  map e_lp (map plain_elem l) = repeat false (length l) /\
+  map e_link (map plain_elem l) = map (fun p => plink (fst p)) l.
+Proof.
+  intros l. rewrite !map_map. repeat split; try reflexivity.
+  induction l; cbn [map length repeat]; [reflexivity|]. f_equal. assumption.
+Qed.
+
+Lemma lprop_maps : forall mt l,
+  map e_sub (map (lprop_elem H tid' mt) l) = map sub_of l /\
+  map e_name (map (lprop_elem H tid' mt) l) = map (fun p => pname (fst p)) l /\
+  map e_card (map (lprop_elem H tid' mt) l) = map (fun p => card_of (preq (fst p)) (pmulti (fst p))) l /\
+  map e_lp (map (lprop_elem H tid' mt) l) = repeat true (length l).
+Proof.
+  intros mt l. rewrite !map_map. repeat split; try reflexivity.
+  induction l; cbn [map length repeat]; [reflexivity|]. f_equal. assumption.
+Qed.
+
+Lemma Forall_app_l : forall {A} (P : A -> Prop) l1 l2, Forall P (l1 ++ l2) -> Forall P l1 /\ Forall P l2.
+Proof. intros. apply Forall_app; auto. Qed.
+
 Theorem id_inj : forall t1, all_ok t1 -> forall t2, all_ok t2 ->
   tid' t1 = tid' t2 -> skel t1 = skel t2.
 Proof.
@@ -481,7 +571,7 @@ Proof.
   - (* scalar *)
     destruct t2 as [sc|named pers name els|? ? ?|? ? ?|? ? ?|mt free impl ptrs lps|? ? ?];
       cbn [tkind] in SK; try discriminate.
-    + cbn [tid own_ok] in *. f_equal. apply ScById; tauto.
+    + cbn [tid own_ok skel] in *. f_equal. apply ScById; tauto.
     + destruct els; [|discriminate]. cbn [tid own_ok tuple_id map] in *. exfalso. tauto.
   - (* tuple *)
     destruct t2 as [sc|named2 pers2 name2 els2|? ? ?|? ? ?|? ? ?|mt free impl ptrs lps|? ? ?];
@@ -502,24 +592,303 @@ Proof.
         apply go_forall in X1. apply go_forall in X2.
         apply coll_idstr_inj in ES.
         -- destruct ES as (_ & ESub & ENm).
-           assert (named = named2 /\ (named = true -> map fst L1 = map fst L2)).
-           { subst L1 L2. destruct named; destruct named2; cbn [names_norm map] in ENm; try discriminate; auto.
-             split; auto. intros _. inversion ENm. reflexivity. }
-           destruct H1 as [-> ENames]. cbn [skel]. f_equal.
-           assert (F2 : Forall2 (fun a b => tid' (snd a) = tid' (snd b)) L1 L2)
-             by (apply (map_eq_pointwise (fun p => tid' (snd p))); exact ESub).
-           assert (FN : named2 = true -> Forall2 (fun a b => fst a = fst b) L1 L2)
-             by (intro Hn; apply (map_eq_pointwise fst); auto).
-           clear -H0 X1 X2 F2 FN On1 HeqL1.
-           assert (NM : named2 = false -> True) by auto.
-           (* unnamed tuples: element names are not part of the skeleton either way *)
-           admit.
+           assert (NN : named = named2 /\ (named = true -> map fst L1 = map fst L2)).
+           { subst L1 L2. destruct named; destruct named2; cbn [names_norm map] in ENm;
+               try discriminate; (split; [reflexivity|]); [|discriminate].
+             intros _. inversion ENm. simpl; congruence. }
+           destruct NN as [-> ENames]. cbn [skel]. f_equal.
+           apply tuple_skel_list; auto.
+           apply Forall2_IH; auto.
+           apply (map_eq_pointwise (fun p => tid' (snd p))); exact ESub.
         -- apply kinds_nonul; simpl; auto.
         -- apply kinds_nonul; simpl; auto.
         -- apply Forall_map. eapply Forall_impl; [|exact X1]. intros; apply tid_wf; auto.
         -- apply Forall_map. eapply Forall_impl; [|exact X2]. intros; apply tid_wf; auto.
         -- intros l Hl. destruct named; inversion Hl; subst. rewrite !map_length. split; auto.
         -- intros l Hl. destruct named2; inversion Hl; subst. rewrite !map_length. split; auto.
-Abort.
+    + destruct els; inversion SK.
+    + destruct els; inversion SK.
+    + destruct els; inversion SK.
+    + exfalso. destruct els; inversion SK. cbn [own_ok] in O2. destruct O2 as (_ & O2 & _).
+      apply O2. rewrite <- H2. simpl; auto.
+    + exfalso. exact O2.
+
+  - (* array *)
+    destruct t2 as [sc|named2 pers2 name2 els2|pers2 name2 el2|? ? ?|? ? ?|mt free impl ptrs lps|? ? ?];
+      cbn [tkind] in SK; try discriminate.
+    + destruct els2; discriminate.
+    + cbn [tid own_ok all_ok skel] in *. unfold coll1_id in E. apply NoCollide in E; auto.
+      apply coll_idstr_inj in E.
+      * destruct E as (_ & E & _). inversion E. f_equal. apply IHt1; tauto.
+      * apply kinds_nonul; simpl; auto.
+      * apply kinds_nonul; simpl; auto.
+      * constructor; auto. apply tid_wf; tauto.
+      * constructor; auto. apply tid_wf; tauto.
+      * discriminate.
+      * discriminate.
+    + exfalso. cbn [own_ok] in O2. destruct O2 as (_ & O2 & _). apply O2. inversion SK. simpl; auto.
+    + exfalso. exact O2.
+  - (* range *)
+    destruct t2 as [sc|named2 pers2 name2 els2|? ? ?|pers2 name2 el2|? ? ?|mt free impl ptrs lps|? ? ?];
+      cbn [tkind] in SK; try discriminate.
+    + destruct els2; discriminate.
+    + cbn [tid own_ok all_ok skel] in *. unfold coll1_id in E. apply NoCollide in E; auto.
+      apply coll_idstr_inj in E.
+      * destruct E as (_ & E & _). inversion E. f_equal. apply IHt1; tauto.
+      * apply kinds_nonul; simpl; auto.
+      * apply kinds_nonul; simpl; auto.
+      * constructor; auto. apply tid_wf; tauto.
+      * constructor; auto. apply tid_wf; tauto.
+      * discriminate.
+      * discriminate.
+    + exfalso. cbn [own_ok] in O2. destruct O2 as (_ & O2 & _). apply O2. inversion SK. simpl; auto.
+    + exfalso. exact O2.
+  - (* multirange *)
+    destruct t2 as [sc|named2 pers2 name2 els2|? ? ?|? ? ?|pers2 name2 el2|mt free impl ptrs lps|? ? ?];
+      cbn [tkind] in SK; try discriminate.
+    + destruct els2; discriminate.
+    + cbn [tid own_ok all_ok skel] in *. unfold coll1_id in E. apply NoCollide in E; auto.
+      apply coll_idstr_inj in E.
+      * destruct E as (_ & E & _). inversion E. f_equal. apply IHt1; tauto.
+      * apply kinds_nonul; simpl; auto 6.
+      * apply kinds_nonul; simpl; auto 6.
+      * constructor; auto. apply tid_wf; tauto.
+      * constructor; auto. apply tid_wf; tauto.
+      * discriminate.
+      * discriminate.
+    + exfalso. cbn [own_ok] in O2. destruct O2 as (_ & O2 & _). apply O2. inversion SK. simpl; auto 6.
+    + exfalso. exact O2.
+  - (* shape *)
+    destruct t2 as [sc|named2 pers2 name2 els2|? ? ?|? ? ?|? ? ?|mt2 free2 impl2 ptrs2 lps2|? ? ?];
+      cbn [tkind] in SK; try discriminate.
+    + exfalso. destruct els2; [discriminate|]. inversion SK as [SK']. cbn [own_ok] in O1.
+      destruct O1 as (_ & O1 & _). apply O1. rewrite SK'. simpl; auto.
+    + exfalso. inversion SK as [SK']. cbn [own_ok] in O1.
+      destruct O1 as (_ & O1 & _). apply O1. rewrite SK'. simpl; auto.
+    + exfalso. inversion SK as [SK']. cbn [own_ok] in O1.
+      destruct O1 as (_ & O1 & _). apply O1. rewrite SK'. simpl; auto.
+    + exfalso. inversion SK as [SK']. cbn [own_ok] in O1.
+      destruct O1 as (_ & O1 & _). apply O1. rewrite SK'. simpl; auto 6.
+    + cbn [tid] in E. unfold shape_id_of, shape_id in E. rewrite !shape_elems_plain in E.
+      cbn [own_ok] in O1, O2.
+      destruct O1 as (N1 & K1 & On1 & OS1 & Oset1). destruct O2 as (N2 & K2 & On2 & OS2 & Oset2).
+      apply NoCollide in E; [| exact OS1 | exact OS2].
+      cbn [all_ok] in X1, X2. destruct X1 as (_ & Xp1 & Xl1). destruct X2 as (_ & Xp2 & Xl2).
+      apply go_forall in Xp1. apply go_forall in Xl1. apply go_forall in Xp2. apply go_forall in Xl2.
+      destruct (plain_maps ptrs) as (PS1 & PN1 & PC1 & PL1 & PK1).
+      destruct (plain_maps ptrs2) as (PS2 & PN2 & PC2 & PL2 & PK2).
+      destruct (lprop_maps mt lps) as (LS1 & LN1 & LC1 & LL1).
+      destruct (lprop_maps mt2 lps2) as (LS2 & LN2 & LC2 & LL2).
+      rewrite !map_app in E.
+      rewrite PS1, PN1, PC1, PL1, PK1, PS2, PN2, PC2, PL2, PK2, LS1, LN1, LC1, LL1, LS2, LN2, LC2, LL2 in E.
+      apply Forall_app_l in Oset1. destruct Oset1 as [Osp1 Osl1].
+      apply Forall_app_l in Oset2. destruct Oset2 as [Osp2 Osl2].
+      rewrite map_app in On1, On2.
+      apply shape_idstr_inj in E; auto.
+      * destruct E as (EB & ESub & ENm & ECd & EI & ELp & ELk).
+        inversion ELp as [ELp']. apply lp_split in ELp'. destruct ELp' as [Lp Ll].
+        apply app_inv_len in ESub; [|rewrite !map_length; auto]. destruct ESub as [ESp ESl].
+        apply app_inv_len in ENm; [|rewrite !map_length; auto]. destruct ENm as [ENp ENl].
+        apply app_inv_len in ECd; [|rewrite !map_length; auto]. destruct ECd as [ECp ECl].
+        inversion ELk as [ELk']. apply app_inv_len in ELk'; [|rewrite !map_length; auto].
+        destruct ELk' as [EKp _].
+        cbn [skel]. subst impl2. rewrite EB. f_equal.
+        -- apply ptr_list_skel; auto.
+           ++ apply (map_eq_pointwise sub_of); auto.
+           ++ apply (map_eq_pointwise (fun p => pname (fst p))); auto.
+           ++ apply (map_eq_pointwise (fun p => card_of (preq (fst p)) (pmulti (fst p)))); auto.
+           ++ intros _. apply (map_eq_pointwise (fun p => plink (fst p))); auto.
+        -- apply ptr_list_skel; auto.
+           ++ apply (map_eq_pointwise sub_of); auto.
+           ++ apply (map_eq_pointwise (fun p => pname (fst p))); auto.
+           ++ apply (map_eq_pointwise (fun p => card_of (preq (fst p)) (pmulti (fst p)))); auto.
+           ++ discriminate.
+      * apply Forall_app; split; apply Forall_map.
+        -- rewrite Forall_forall in Xp1, Osp1 |- *. intros p Hp. unfold sub_of.
+           destruct (pmulti (fst p)); [apply H_wf|apply tid_wf; auto].
+        -- rewrite Forall_forall in Xl1 |- *. intros p Hp. unfold sub_of.
+           destruct (pmulti (fst p)); [apply H_wf|apply tid_wf; auto].
+      * apply Forall_app; split; apply Forall_map.
+        -- rewrite Forall_forall in Xp2 |- *. intros p Hp. unfold sub_of.
+           destruct (pmulti (fst p)); [apply H_wf|apply tid_wf; auto].
+        -- rewrite Forall_forall in Xl2 |- *. intros p Hp. unfold sub_of.
+           destruct (pmulti (fst p)); [apply H_wf|apply tid_wf; auto].
+      * apply Forall_app; split; apply Forall_map; apply Forall_forall; intros; apply okcard_card_of.
+      * apply Forall_app; split; apply Forall_map; apply Forall_forall; intros; apply okcard_card_of.
+      * rewrite !app_length, !map_length; reflexivity.
+      * rewrite !app_length, !map_length; reflexivity.
+      * rewrite !app_length, !map_length; reflexivity.
+      * rewrite !app_length, !map_length; reflexivity.
+      * intros l Hl; inversion Hl. rewrite !app_length, !repeat_length, !map_length. reflexivity.
+      * intros l Hl; inversion Hl. rewrite !app_length, !repeat_length, !map_length. reflexivity.
+      * intros l Hl; inversion Hl. rewrite !app_length, !map_length. reflexivity.
+      * intros l Hl; inversion Hl. rewrite !app_length, !map_length. reflexivity.
+    + exfalso. exact O2.
+  - exfalso. exact O1.
+Qed.
 
 End Main.
+
+(* ================================================================== functionality *)
+
+(* what the schema layer determines (inputs of sertypes that are not part of any id) *)
+Record senv := mkSenv {
+  cattr : uuid -> str * bool;          (* collection: str(get_name()), get_is_persistent() by id *)
+  ot_of : str -> objtype * bool;       (* material object type and is_free_object_type by name *)
+  srcs : uuid -> list objtype;         (* sources of the pointers of a shape, by shape id *)
+  posnames : nat -> list str           (* element names of an unnamed tuple of a given arity *)
+}.
+
+Section Functional.
+Variable H : str -> uuid.
+Variable c : cfg.
+Variable env : senv.
+Notation tid' := (tid H c).
+
+Definition own_conf (t : ty) : Prop :=
+  match t with
+  | TScalar _ => True
+  | TTuple named pers name els =>
+      (name, pers) = cattr env (tid' t) /\ (named = false -> map fst els = posnames env (length els))
+  | TArray pers name _ | TRange pers name _ | TMultiRange pers name _ =>
+      (name, pers) = cattr env (tid' t)
+  | TShape mt free _ ptrs lps =>
+      (mt, free) = ot_of env (oname mt) /\
+      map (fun p => psource (fst p)) ptrs = srcs env (tid' t) /\
+      Forall (fun p => plink (fst p) = false /\ psource (fst p) = mt) lps
+  | TInput _ _ _ => False
+  end.
+
+Fixpoint conf (t : ty) : Prop :=
+  own_conf t /\
+  match t with
+  | TTuple _ _ _ els =>
+      (fix go (l : list (str * ty)) : Prop :=
+         match l with [] => True | p :: r => conf (snd p) /\ go r end) els
+  | TArray _ _ el | TRange _ _ el | TMultiRange _ _ el => conf el
+  | TShape _ _ _ ptrs lps =>
+      (fix go (l : list (pinfo * ty)) : Prop :=
+         match l with [] => True | p :: r => conf (snd p) /\ go r end) ptrs /\
+      (fix go (l : list (pinfo * ty)) : Prop :=
+         match l with [] => True | p :: r => conf (snd p) /\ go r end) lps
+  | _ => True
+  end.
+
+Lemma cgo_forall : forall {A} (l : list (A * ty)),
+  (fix go (l : list (A * ty)) : Prop :=
+     match l with [] => True | p :: r => conf (snd p) /\ go r end) l
+  <-> Forall (fun p => conf (snd p)) l.
+Proof.
+  induction l as [|p r IH]; split; intro X; auto.
+  - destruct X as [X1 X2]. constructor; auto. apply IH; auto.
+  - inversion X; subst. split; auto. apply IH; auto.
+Qed.
+
+Lemma conf_own : forall t, conf t -> own_conf t.
+Proof. intros t X. destruct t; cbn [conf] in X; destruct X as [X _]; exact X. Qed.
+
+(* ids do not look at what [skel] blanks *)
+Lemma tid_skel : forall t, tid' (skel t) = tid' t.
+Proof.
+  induction t using ty_ind'; cbn [skel tid]; auto.
+  - f_equal.
+    + rewrite map_map. cbn [snd]. induction H0 as [|p l Hp HF IH]; simpl; auto. f_equal; auto.
+    + destruct named; auto. rewrite map_map. cbn [fst]. reflexivity.
+  - rewrite IHt; reflexivity.
+  - rewrite IHt; reflexivity.
+  - rewrite IHt; reflexivity.
+  - unfold shape_id_of. cbn [oname].
+    assert (A : map (ptr_elem H c tid') (map (fun p => (skel_pi false (fst p), skel (snd p))) ptrs)
+                = map (fun p => option_map (fun e => mkElem (e_sub e) (e_name e) (e_lp e) (e_link e) (e_card e) (ORegular [] []))
+                                          (ptr_elem H c tid' p)) ptrs).
+    { rewrite map_map. induction H0 as [|p l Hp HF IH]; simpl; auto. f_equal; auto.
+      unfold ptr_elem. cbn [fst snd skel_pi pname plink pmulti preq psource].
+      destruct (negb (is_prefix (flt c) (pname (fst p)))); simpl; auto. rewrite Hp. reflexivity. }
+    assert (B : forall mt', map (lprop_elem H tid' mt') (map (fun p => (skel_pi true (fst p), skel (snd p))) lps)
+                = map (fun p => let e := lprop_elem H tid' mt p in
+                                mkElem (e_sub e) (e_name e) (e_lp e) (e_link e) (e_card e) mt') lps).
+    { intro mt'. rewrite map_map. induction H1 as [|p l Hp HF IH]; simpl; auto. f_equal; auto.
+      unfold lprop_elem. cbn [fst snd skel_pi pname plink pmulti preq psource]. rewrite Hp. reflexivity. }
+    rewrite A, B. clear A B.
+    set (E1 := somes (map (fun p => option_map _ (ptr_elem H c tid' p)) ptrs)).
+    set (E2 := somes (map (ptr_elem H c tid') ptrs)).
+    assert (P : map e_sub E1 = map e_sub E2 /\ map e_name E1 = map e_name E2 /\ map e_card E1 = map e_card E2
+                /\ map e_lp E1 = map e_lp E2 /\ map e_link E1 = map e_link E2).
+    { unfold E1, E2. clear. induction ptrs as [|p l IH]; simpl; auto 10.
+      destruct (ptr_elem H c tid' p); simpl; auto. destruct IH as (-> & -> & -> & -> & ->). auto 10. }
+    destruct P as (P1 & P2 & P3 & P4 & P5).
+    rewrite !map_app, P1, P2, P3, P4, P5, !map_map. reflexivity.
+Qed.
+
+Lemma skel_children_tid : forall t1 t2, skel t1 = skel t2 -> tid' t1 = tid' t2.
+Proof. intros t1 t2 E. rewrite <- (tid_skel t1), <- (tid_skel t2), E. reflexivity. Qed.
+
+Lemma pairs_eq : forall {A B} (l1 l2 : list (A * B)),
+  map fst l1 = map fst l2 -> map snd l1 = map snd l2 -> l1 = l2.
+Proof.
+  induction l1 as [|[a b] l1 IH]; intros [|[a' b'] l2] E1 E2; simpl in *; try discriminate; auto.
+  inversion E1; inversion E2; subst. f_equal; auto.
+Qed.
+
+Lemma pinfo_eq : forall a b, pname a = pname b -> plink a = plink b -> preq a = preq b ->
+  pmulti a = pmulti b -> psource a = psource b -> a = b.
+Proof. intros [] []; simpl; intros; subst; reflexivity. Qed.
+
+Lemma map_snd_IH : forall {A} (l1 l2 : list (A * ty)),
+  Forall (fun p => conf (snd p) -> forall t2, conf t2 -> skel (snd p) = skel t2 -> snd p = t2) l1 ->
+  Forall (fun p => conf (snd p)) l1 -> Forall (fun p => conf (snd p)) l2 ->
+  map (fun p => skel (snd p)) l1 = map (fun p => skel (snd p)) l2 ->
+  map snd l1 = map snd l2.
+Proof.
+  intros A l1. induction l1 as [|p l1 IH]; intros [|q l2] HI X1 X2 E; simpl in E; try discriminate; auto.
+  inversion HI; inversion X1; inversion X2; inversion E; subst. simpl. f_equal; auto.
+Qed.
+
+Theorem skel_conf_eq : forall t1, conf t1 -> forall t2, conf t2 -> skel t1 = skel t2 -> t1 = t2.
+Proof.
+  intros t1. induction t1 using ty_ind'; intros C1 t2 C2 E;
+    pose proof (skel_children_tid _ _ E) as ET;
+    pose proof (conf_own _ C1) as O1; pose proof (conf_own _ C2) as O2;
+    destruct t2 as [sc|named2 pers2 name2 els2|pers2 name2 el2|pers2 name2 el2|pers2 name2 el2|mt2 free2 impl2 ptrs2 lps2|? ? ?];
+    cbn [skel] in E; try discriminate; try (exfalso; exact O2); try (exfalso; exact O1).
+  - inversion E; reflexivity.
+  - inversion E as [[En Em]]. subst named2.
+    cbn [own_conf] in O1, O2. rewrite ET in O1. destruct O1 as [A1 P1]. destruct O2 as [A2 P2].
+    assert (name = name2 /\ pers = pers2) by (rewrite <- A2 in A1; inversion A1; auto).
+    destruct H1 as [-> ->].
+    cbn [conf] in C1, C2. destruct C1 as [_ C1]. destruct C2 as [_ C2].
+    apply cgo_forall in C1. apply cgo_forall in C2.
+    assert (L : length els = length els2) by (apply (f_equal (@length _)) in Em; rewrite !map_length in Em; auto).
+    f_equal. apply pairs_eq.
+    + destruct named.
+      * apply (f_equal (map fst)) in Em. rewrite !map_map in Em. exact Em.
+      * rewrite P1, P2, L; auto.
+    + apply map_snd_IH; auto. apply (f_equal (map snd)) in Em. rewrite !map_map in Em. exact Em.
+  - inversion E as [Ee]. cbn [own_conf conf] in *. rewrite ET in O1. rewrite <- O2 in O1. inversion O1; subst.
+    f_equal. apply IHt1; tauto.
+  - inversion E as [Ee]. cbn [own_conf conf] in *. rewrite ET in O1. rewrite <- O2 in O1. inversion O1; subst.
+    f_equal. apply IHt1; tauto.
+  - inversion E as [Ee]. cbn [own_conf conf] in *. rewrite ET in O1. rewrite <- O2 in O1. inversion O1; subst.
+    f_equal. apply IHt1; tauto.
+  - inversion E as [[En Ei Ep El]]. subst impl2.
+    cbn [own_conf] in O1, O2. rewrite ET in O1.
+    destruct O1 as (M1 & S1 & L1). destruct O2 as (M2 & S2 & L2).
+    rewrite En in M1. rewrite <- M2 in M1. inversion M1; subst mt2 free2.
+    cbn [conf] in C1, C2. destruct C1 as (_ & Cp1 & Cl1). destruct C2 as (_ & Cp2 & Cl2).
+    apply cgo_forall in Cp1. apply cgo_forall in Cl1. apply cgo_forall in Cp2. apply cgo_forall in Cl2.
+    f_equal.
+    + apply pairs_eq.
+      * rewrite <- S2 in S1.
+        apply (f_equal (map fst)) in Ep. rewrite !map_map in Ep. cbn [fst] in Ep.
+        clear -Ep S1. revert ptrs2 Ep S1. induction ptrs as [|p l IH]; intros [|q l2] Ep S1; simpl in *; try discriminate; auto.
+        inversion Ep; inversion S1. f_equal; auto. apply pinfo_eq; auto.
+      * apply map_snd_IH; auto. apply (f_equal (map snd)) in Ep. rewrite !map_map in Ep. exact Ep.
+    + apply pairs_eq.
+      * apply (f_equal (map fst)) in El. rewrite !map_map in El. cbn [fst] in El.
+        clear -El L1 L2. revert lps2 El L2. induction lps as [|p l IH]; intros [|q l2] El L2; simpl in *; try discriminate; auto.
+        inversion El; inversion L1; inversion L2; subst. f_equal; auto.
+        apply pinfo_eq; auto; try tauto. destruct H5, H9. congruence. destruct H5, H9; congruence.
+      * apply map_snd_IH; auto. apply (f_equal (map snd)) in El. rewrite !map_map in El. exact El.
+Qed.
+
+End Functional.
